@@ -10,6 +10,8 @@ mapping names = ([ ]);     // "o5" -> "c08/b1#3"
 mapping lnames = ([ ]);    // "o5" -> living name
 mapping scripts = ([ ]);   // "o5:init" -> ({ ops, ops, ... })
 object keep;
+mixed *keepa = ({ 0 });
+mapping keepm = ([ ]);
 
 int next_id () { return nid++; }
 void reg (string oid, object ob) { obs[oid] = ob; rev[ob] = oid; names[oid] = file_name (ob)[1..]; }
@@ -36,8 +38,11 @@ string next_script (string key) {
 }
 
 string my_oid () { return "o1"; }
-void set_keep (object o) { keep = o; }
+// the same reference in a global variable, an array and a mapping (scrub sites F_GLOBAL / F_INDEX)
+void set_keep (object o) { keep = o; keepa = ({ o }); keepm = ([ "k" : o ]); }
 object get_keep () { return keep; }
+object get_keepa () { return keepa[0]; }
+object get_keepm () { return keepm["k"]; }
 
 #include "/c08/ops.h"
 
